@@ -363,6 +363,9 @@ class GenericPlainRegistry(Generic[QuantityT, UnitT], metaclass=RegistryMeta):
 
     def __deepcopy__(self: Self, memo) -> type[Self]:
         new = object.__new__(type(self))
+        # objects that refer back to the registry (e.g. the formatter) must
+        # refer to the copy, not to yet another copy of the registry
+        memo[id(self)] = new
         new.__dict__ = copy.deepcopy(self.__dict__, memo)
         new._init_dynamic_classes()
         return new
